@@ -49,7 +49,7 @@ def main():
             mod.correspond(ctx)
         except Exception:
             ctx.break_("correspondence-harness", traceback.format_exc())
-        if ctx.broken and not ctx.failures and hasattr(mod, "search"):
+        if ctx.broken and not ctx.unlisted() and hasattr(mod, "search"):
             try:
                 mod.search(ctx, ctx.broken)
             except Exception:
